@@ -7,7 +7,6 @@ import shapes as S
 PID = 'C01'
 STATS = G.STATS
 PARTIAL = [
-    "volume_point_eq_definition: the triple tensor-product theorem is not stated in Lean yet (curve and surface are); volumes are covered by correspondence + exact oracle",
     "entry_points_agree: single / list / grid / zeroth-derivative entry points are tied to the one model function by the correspondence, not by a Lean theorem about the object layer",
 ]
 ASSUMPTIONS = ["parameters at the domain end are evaluated on the last non-empty span (left limit), as the library does"]
